@@ -57,7 +57,7 @@ CLAIMED = {
          "Prefix set: canonical states of the deviation-bounded exploration at horizon 3 (5 thorough) with loss, reordering, duplicates, timer expiries and twin equivocation, capped as reported; crash sets: none and every single replica; oracle: every member of the live quorum commits a new block before view heal+3*ChainLength+2; plus the fault-free 12-view lock-step run (round-robin and fixed leader) with commits trailing by exactly the chain length.",
          "The bound is fixed in the harness; heal view = highest view in the prefix state + 2; fast-hotstuff fails as a known finding (behaviour asserted by TestAdvanceView).", "§4 C05"),
  "C06": ("clustermc", "explicit-state search over the closed system of real replicas with real ClientIO / CommandCache; digest-explaining monitor on every transition",
-         "%s Oracle: one ExecuteEvent per committed block in chain order, the application count and digest are explained by executing the committed commands once in order, no (client, seq) twice, executed sequences of honest replicas prefix-related." % E1TEXT, E1NOTE + " Waiting ExecCommand callers are not modelled (outcomes are checked through count/digest only).", "§2, §4 C06"),
+         "%s Oracle: one ExecuteEvent per committed block in chain order, the application count and digest are explained by executing the committed commands once in order, no (client, seq) twice, executed sequences of honest replicas prefix-related." % E1TEXT, E1NOTE + " In addition every chain of 3 (4) blocks over 12 batches of 3 commands (so that commands repeat across committed blocks) is committed through the real Committer into the real ClientIO with real ExecCommand callers waiting (one per command, one for a command that is only in an abandoned sibling): at most one outcome per caller, success only in the step the command is executed.", "§2, §4 C06"),
  "C07": ("clustermc", "explicit-state search over the closed system of real replicas; monotonicity and evidence monitors on every transition against the ground truth of real signatures",
          "%s Oracle: view, high QC view (and its block's view), high TC view and committed view never decrease; every view increment is signalled by a consecutive ViewChangeEvent and is justified by a ground-truth quorum of votes (block of view >= v) or timeouts (view >= v); every new high QC / high TC is backed by real signatures." % E1TEXT, E1NOTE, "§2, §4 C07"),
  "C15": ("schedmc", "exhaustive operation-sequence enumeration and preemption-bounded schedule enumeration of the real CommandCache under a controlled cooperative scheduler (sync/select/go rewritten mechanically), list+mark reference model",
